@@ -8,11 +8,142 @@
 package main
 
 import (
+	"bufio"
 	"crypto/sha256"
+	"encoding/json"
+	"flag"
+	"fmt"
+	"os"
+	"os/exec"
+	"path/filepath"
+	"strconv"
 	"strings"
+	"time"
 
 	"verifharness/hx"
 )
+
+// The stress rounds run in a child process of the harness: a broken hand-off protocol can end in a Go *fatal*
+// error ("sync: unlock of unlocked mutex", "all goroutines are asleep"), which no recover() catches.  The child
+// appends every oracle failure to a side file as it happens, so that the parent can still report the failing logs
+// (and the crash itself) as property-oracle failures.
+var stressChild = flag.Bool("stress-child", false, "internal: run only the stress rounds")
+
+const childTimeout = 90 * time.Minute
+
+func runStressInChild(r *hx.Run) {
+	dir := filepath.Join(r.OutDir, "stress")
+	cmd := exec.Command(os.Args[0], "--seed", strconv.FormatUint(r.Rng.U64(), 10), "--tier", r.Tier, "--out", dir, "--stress-child")
+	var stderr strings.Builder
+	cmd.Stderr = &tailWriter{b: &stderr}
+	done := make(chan error, 1)
+	if err := cmd.Start(); err != nil {
+		r.Fail("crash", "cannot start the stress child: "+err.Error(), map[string]string{"oracle": "crash", "mode": "stress"})
+
+		return
+	}
+	go func() { done <- cmd.Wait() }()
+	var err error
+	select {
+	case err = <-done:
+	case <-time.After(childTimeout):
+		_ = cmd.Process.Kill()
+		err = fmt.Errorf("killed after %s", childTimeout)
+	}
+	if err != nil {
+		// the side file has what was observed before the process died
+		if f, e := os.Open(filepath.Join(dir, "findings.jsonl")); e == nil {
+			sc := bufio.NewScanner(f)
+			sc.Buffer(make([]byte, 1<<20), 1<<24)
+			for sc.Scan() {
+				var fd hx.Finding
+				if json.Unmarshal(sc.Bytes(), &fd) == nil {
+					r.Fail(fd.Oracle, fd.Detail, fd.Signature)
+				}
+			}
+			f.Close()
+		}
+		msg := stderr.String()
+		kind := "crash"
+		if strings.Contains(msg, "unlock of unlocked mutex") {
+			kind = "crash-unlock-of-unlocked-mutex"
+		} else if strings.Contains(msg, "deadlock") || strings.Contains(msg, "asleep") {
+			kind = "crash-deadlock"
+		}
+		r.Fail("crash", fmt.Sprintf("the stress rounds died (%v): %s", err, firstLines(msg, 6)),
+			map[string]string{"oracle": kind, "mode": "stress"})
+
+		return
+	}
+	// merge the child's streams and statistics
+	ops := readLines(filepath.Join(dir, "ops.txt"))
+	impl := readLines(filepath.Join(dir, "impl.txt"))
+	for i := 0; i < len(ops) && i < len(impl); i++ {
+		if strings.HasPrefix(ops[i], "#") {
+			f := strings.Fields(ops[i])
+			sub, _ := strconv.ParseUint(f[len(f)-1], 10, 64)
+			r.Case(sub)
+
+			continue
+		}
+		r.Line(ops[i], impl[i])
+	}
+	var st struct {
+		Nontrivial int            `json:"distinct_nontrivial"`
+		Samples    []any          `json:"samples"`
+		Hist       map[string]int `json:"histogram"`
+	}
+	if b, e := os.ReadFile(filepath.Join(dir, "stats.json")); e == nil && json.Unmarshal(b, &st) == nil {
+		for k, v := range st.Hist {
+			r.CountN(k, v)
+		}
+		for i := 0; i < st.Nontrivial; i++ {
+			r.Nontrivial("stress-round-" + strconv.Itoa(i))
+		}
+		for _, s := range st.Samples {
+			r.Sample(s)
+		}
+	}
+	var fds []hx.Finding
+	if b, e := os.ReadFile(filepath.Join(dir, "oracle.json")); e == nil && json.Unmarshal(b, &fds) == nil {
+		for _, fd := range fds {
+			r.Fail(fd.Oracle, fd.Detail, fd.Signature)
+		}
+	}
+	os.RemoveAll(dir)
+}
+
+type tailWriter struct{ b *strings.Builder }
+
+func (t *tailWriter) Write(p []byte) (int, error) {
+	if t.b.Len() < 1<<16 {
+		t.b.Write(p)
+	}
+
+	return len(p), nil
+}
+
+func firstLines(s string, n int) string {
+	ls := strings.Split(strings.TrimSpace(s), "\n")
+	if len(ls) > n {
+		ls = ls[:n]
+	}
+
+	return strings.Join(ls, " / ")
+}
+
+func readLines(p string) []string {
+	b, err := os.ReadFile(p)
+	if err != nil {
+		return nil
+	}
+	ls := strings.Split(string(b), "\n")
+	if len(ls) > 0 && ls[len(ls)-1] == "" {
+		ls = ls[:len(ls)-1]
+	}
+
+	return ls
+}
 
 func runSeqCase(r *hx.Run, sub uint64, ops []string) {
 	r.Case(sub)
@@ -68,12 +199,22 @@ var seqCorpus = [][]string{
 
 func main() {
 	r := hx.Start()
-	r.MaxSamples = 4
+	r.MaxSamples = 5
 	r.Rule = "sequential: random histories over reactive Set[int] (universe 0..4: add/del/addall/delall/apply/compute/toggle/replace), " +
 		"Variable[int] (set/compute/defaultto) and Event (trigger/set/ontrigger) with sub/unsub/state; non-trivial = at least one " +
 		"subscription and three delivered notes, distinct by sha256 of the op lines. stress: 4-8 goroutines per round (writers, " +
 		"subscribers with/without initial trigger, unsubscribers) on one Variable / Set / Event; non-trivial = a round in which some " +
 		"subscription received a writer's note after its initial one while another goroutine was writing, distinct by sha256 of the logs"
+	if *stressChild {
+		if f, err := os.Create(filepath.Join(r.OutDir, "findings.jsonl")); err == nil {
+			sideFile = f
+		}
+		r.MaxSamples = 2
+		runStress(r)
+		r.Finish()
+
+		return
+	}
 	if lines := r.ReplayLines(); lines != nil {
 		runSeqCase(r, 0, lines)
 		r.Finish()
@@ -88,6 +229,6 @@ func main() {
 		rng, sub := r.Rng.Fork()
 		runSeqCase(r, sub, genSeqCase(rng, 28))
 	}
-	runStress(r)
+	runStressInChild(r)
 	r.Finish()
 }
